@@ -6,13 +6,23 @@ from props import progs
 from props.progs import replay  # noqa
 from zngen import *
 
-RULE = ("programs with one fault (抛出, 1/0, undefined name, index out of range, failing built-in) planted at a known line inside a chain "
-        "of 0–4 nested calls, inside branches/loops, after earlier handled exceptions (stale frames must not appear), after single- and "
-        "multi-line comments and multi-line text literals (physical line counting), with LF or CRLF line ends; syntax errors planted on a "
-        "generator-known line: a stray ） after wide characters (caret column), and a line inserted after a complete statement that is indented "
-        "deeper than that statement, with spaces or TABs (error 20 on THAT line, caret 0); expected chain = call-site "
-        "line of every active call, innermost statement line last. Non-trivial = call depth ≥ 1 or a multi-line construct before the fault.")
-ASSUMPTIONS = ["all frames are in the main module in this stream (cross-module chains are exercised by C15's module stream)"]
+RULE = ("programs with one fault (抛出, 1/0, undefined name, index out of range, failing built-in; a call of a user method / constructor / "
+        "object method with the wrong number of arguments, a call of a name that holds a number or a text — the chain ends at the CALLER's "
+        "line, the call that never began has no entry; a 每当 loop whose condition can no longer be evaluated on its second or third pass — "
+        "the line is the loop's; a failing library function after 导入《@JSON》 — the library's frame is shown as built-in code; a type / "
+        "method / constructor declaration that fails while the declarations of its block are executed ahead of the other statements: failing "
+        "property default, a name declared twice, a constructor for a name that is no type — the line is the declaration's) planted at a "
+        "known line inside a chain of 0–4 nested calls, inside branches/loops, after earlier handled exceptions (stale frames must not "
+        "appear), after single- and multi-line comments and multi-line text literals (physical line counting), with LF or CRLF line ends; "
+        "expected chain = call-site line of every active call, innermost statement line last; programs whose 导入 statement fails "
+        "(missing library / module, the same library twice) on a line ≥ 2 after comments and blank lines — the line is that statement's; "
+        "syntax errors planted on a generator-known line: a stray ） after wide characters (caret column), and a line inserted after a "
+        "complete statement that is indented deeper than that statement, with spaces or TABs (error 20 on THAT line, caret 0). "
+        "Non-trivial = call depth ≥ 1, a multi-line construct before the fault, or one of the fault kinds named after the first semicolon.")
+ASSUMPTIONS = ["all frames are in the main module or in a standard library in this stream (cross-module chains are exercised by C15's "
+               "module stream)",
+               "programs with a 导入 statement are `unmodelled` in the evaluator model and `unspecified` in the spec semantics: for them the "
+               "generator's ground truth (line, chain) is the comparison that counts"]
 PARTIAL = ("syntax-error line/caret (lexer Lines table, error printer) are the lexer/parser workers' theorems; this module covers runtime "
            "errors and uncaught exceptions")
 
@@ -44,25 +54,155 @@ def ml(rng, args):
     return args
 
 
+class F:
+    """a planted fault: `pre` statements that go right before it in the same block, the statement itself (tagged 'fault': the line the
+    error has to point at), the expected last entry of the chain after that line (`native` for built-in / library code, else nothing),
+    definitions the program needs at top level, import lines, and the kind (for the evidence counts)"""
+
+    def __init__(self, stmt, tail=None, pre=(), defs=(), imports=(), kind='plain', bare=False):
+        self.stmt, self.tail, self.pre, self.defs, self.imports, self.kind = stmt, tail, list(pre), list(defs), list(imports), kind
+        self.bare = bare    # has to stand directly in the body of its method / of the program (declarations: only there are they executed)
+
+
+def shown(rng, e):
+    """the failing expression as a statement: displayed (possibly after a multi-line text), bound by 令, or bare"""
+    k = rng.random()
+    if k < 0.5:
+        return ExprS(Call('显示', ml(rng, [e])))
+    if k < 0.75:
+        return Decl(['得%d' % rng.randint(100, 999)], e)
+    return ExprS(e)
+
+
+def args_n(rng, n):
+    return [rng.choice([Num(str(rng.randint(1, 9))), Str('参')]) for _ in range(n)]
+
+
+def fault_arity(g, rng):
+    """(a) a user method / constructor / object method called with the wrong number of arguments: error before the first statement of
+    the callee — the chain ends at the caller's line"""
+    n_in = rng.randint(0, 2)
+    n_arg = rng.choice([k for k in range(0, 4) if k != n_in])
+    ins = ['入%d' % i for i in range(n_in)]
+    u = g.fresh()
+    k = rng.random()
+    lead = [filler(g, rng) for _ in range(rng.randint(0, 2))]
+    if k < 0.45:
+        name = '错参%d' % u
+        return F(shown(rng, Call(name, args_n(rng, n_arg))), defs=[Func(name, ins, lead + [Ret(Num('1'))])], kind='arity-method')
+    if k < 0.75:
+        cname = '错型%d' % u
+        return F(shown(rng, New(cname, args_n(rng, n_arg))),
+                 defs=[Class(cname, [('名', Str('型'))], []), Func(cname, ins, lead + [ExprS(Call('显示', [Str('建')]))], ctor=True)],
+                 kind='arity-constructor')
+    cname = '法型%d' % u
+    return F(shown(rng, MCall(New(cname, []), [('法', args_n(rng, n_arg))])),
+             defs=[Class(cname, [('名', Str('型'))], [Func('法', ins, lead + [Ret(Num('1'))])])], kind='arity-object-method')
+
+
+def fault_not_method(g, rng):
+    """(b) a call of a name that holds a number / a text"""
+    v = '数甲%d' % g.fresh()
+    val = Num(str(rng.randint(0, 9))) if rng.random() < 0.7 else Str('文')
+    return F(shown(rng, Call(v, args_n(rng, rng.randint(0, 2)))), pre=[Decl([v], val)], kind='not-a-method')
+
+
+def fault_while_cond(g, rng):
+    """(c) 每当 whose condition stops being evaluable on pass 2 or 3 (the body turns the counter into a text): the error belongs to the
+    line of the 每当 statement, not to the last statement the previous pass executed"""
+    c = '计%d' % g.fresh()
+    k = rng.choice([0, 1])
+    body = [filler(g, rng) for _ in range(rng.randint(0, 2))]
+    body.append(If(Bin('eq', Var(c), Num(str(k))), [ExprS(Assign(Var(c), Str('文')))],
+                   els=[ExprS(Assign(Var(c), Bin('+', Var(c), Num('1'))))]))
+    body += [ExprS(Call('显示', [Str('过')])) for _ in range(rng.randint(0, 2))]
+    return F(While(Bin('lt', Var(c), Num('5')), body), pre=[Decl([c], Num('0'))], kind='while-condition-pass-%d' % (k + 2))
+
+
+def fault_library(g, rng):
+    """(d) a library function that fails: its frame has no source text, it is listed as built-in code"""
+    bad = rng.choice(['{', '[1,', '{"a":', 'nul', ''])
+    return F(shown(rng, Call('解析JSON', [Str(bad)])), tail='native', imports=[(1, '@JSON', [], '\n')], kind='library-function')
+
+
+def fault_declaration(g, rng):
+    """(f) a type / method / constructor declaration that fails: declarations are executed before the other statements of their block
+    (of the program, of a method body at any call depth); the error belongs to the line on which the declaration starts"""
+    u = g.fresh()
+    k = rng.random()
+    if k < 0.4:
+        cname = '败型%d' % u
+        props = [('名', Str('型'))] if rng.random() < 0.5 else []
+        props.append(('龄', rng.choice([Bin('/', Num('1'), Num('0')), Var('未定名'), Index(Arr([Num('1')]), Num('5'))])))
+        if rng.random() < 0.3:
+            props.append(('尾', Num('3')))
+        return F(Class(cname, props, []), kind='declaration-property-default', bare=True)
+    if k < 0.65:
+        name = '重名%d' % u
+        return F(Func(name, [], [Ret(Num('2'))]), pre=[Func(name, [], [filler(g, rng), Ret(Num('1'))])], kind='declaration-method-twice',
+                 bare=True)
+    if k < 0.85:
+        cname = '重型%d' % u
+        return F(Class(cname, [('名', Str('乙'))], []), pre=[Class(cname, [('名', Str('甲'))], [])], kind='declaration-type-twice', bare=True)
+    return F(Func('无此型%d' % u, [], [ExprS(Call('显示', [Str('建')]))], ctor=True), kind='declaration-constructor-of-nothing', bare=True)
+
+
 def fault(g, rng):
     k = rng.random()
-    if k < 0.25:
-        return Throw('异常', [Str('误')]), None
+    if k < 0.12:
+        return fault_arity(g, rng)
+    if k < 0.19:
+        return fault_not_method(g, rng)
+    if k < 0.28:
+        return fault_while_cond(g, rng)
+    if k < 0.35:
+        return fault_library(g, rng)
     if k < 0.45:
-        return ExprS(Call('显示', ml(rng, [Bin('/', Num('1'), Num('0'))]))), None
+        return fault_declaration(g, rng)
+    k = rng.random()
+    if k < 0.25:
+        return F(Throw('异常', [Str('误')]))
+    if k < 0.45:
+        return F(ExprS(Call('显示', ml(rng, [Bin('/', Num('1'), Num('0'))]))))
     if k < 0.6:
-        return ExprS(Call('显示', ml(rng, [Var('未定名')]))), None
+        return F(ExprS(Call('显示', ml(rng, [Var('未定名')]))))
     if k < 0.7:
-        return ExprS(Call('显示', ml(rng, [Index(Arr([Num('1')]), Num('5'))]))), None
+        return F(ExprS(Call('显示', ml(rng, [Index(Arr([Num('1')]), Num('5'))]))))
     if k < 0.78:
         # an assignment whose right-hand side spans lines
-        return ExprS(Assign(Var('未定名'), Arr([Str('上\n下'), Num('2')]))), None
+        return F(ExprS(Assign(Var('未定名'), Arr([Str('上\n下'), Num('2')]))))
     if k < 0.9:
-        return ExprS(MCall(Arr([Num('1')]), [('交换', [Num('5'), Num('6')])])), 'native'
-    return ExprS(MCall(Num('1'), [('无此法', [])])), 'native'
+        return F(ExprS(MCall(Arr([Num('1')]), [('交换', [Num('5'), Num('6')])])), 'native', kind='builtin-method')
+    return F(ExprS(MCall(Num('1'), [('无此法', [])])), 'native', kind='builtin-method')
+
+
+def gen_import(g, rng):
+    """(e) a failing 导入 statement on a line ≥ 2: after comments (single-line, multi-line, a comment text spanning lines), blank lines,
+    possibly a successful import.  (zngen.Program: imports = [(libType, name, items, text after the statement)], header = text before
+    the first 导入; `import_lines` holds the 0-based line of every 导入 keyword after rendering.)"""
+    def gap(lo):
+        return ''.join(rng.choice(['注：说明%d\n' % g.fresh(), '\n', '\n', '/* 多行\n   注释%d */\n' % g.fresh(),
+                                   '注：“跨行\n注释%d”\n' % g.fresh()]) for _ in range(rng.randint(lo, 3)))
+    k = rng.random()
+    if k < 0.35:
+        ims = ([(1, '@文件', [], '\n' + gap(0))] if rng.random() < 0.4 else []) + [(1, '@无此库%d' % g.fresh(), [], '\n')]
+        header, kind = gap(1), 'import-missing-library'
+    elif k < 0.5:
+        ims = [(2, '无此模块%d' % g.fresh(), [], '\n')]
+        header, kind = gap(1), 'import-missing-module'
+    else:
+        lib, fn = rng.choice([('@JSON', '解析JSON'), ('@JSON', '生成JSON'), ('@文件', None)])
+        ims = [(1, lib, [fn] if fn and rng.random() < 0.4 else [], '\n' + gap(0)), (1, lib, [], '\n')]
+        header, kind = gap(0), 'import-twice'
+    main = [filler(g, rng) for _ in range(rng.randint(0, 3))] + [ExprS(Call('显示', [Str('不达')]))]
+    p = Program([], main, imports=ims, header=header)
+    p.fault_import = len(ims) - 1       # the failing statement is the last 导入
+    return p, 0, None, kind
 
 
 def gen(g, rng):
+    if rng.random() < 0.06:
+        return gen_import(g, rng)
     depth = rng.randint(0, 4)
     body = []
     # an earlier handled exception: its frames must not show up later
@@ -83,24 +223,28 @@ def gen(g, rng):
 
     def call_of(i):
         return New('型%d' % (i + 1), []) if is_ctor[i] else Call(names[i], [])
-    fstmt, tail = fault(g, rng)
+    flt = fault(g, rng)
+    fstmt, tail = flt.stmt, flt.tail
     fstmt.tag = 'fault'
     for i in range(depth, 0, -1):
         fb = [filler(g, rng) for _ in range(rng.randint(0, 3))]
         if i == depth:
-            inner = fstmt
+            inner = flt.pre + [fstmt]
         else:
             inner = ExprS(Call('显示', ml(rng, [call_of(i)])))
             inner.tag = 'call_%d' % i
+            inner = [inner]
         k = rng.random()
+        if i == depth and flt.bare:
+            k = 1.0
         if k < 0.3:
-            fb.append(If(Var('真'), [filler(g, rng), inner]))
+            fb.append(If(Var('真'), [filler(g, rng)] + inner))
         elif k < 0.5:
             c = '计%d' % g.fresh()
             fb.append(Decl([c], Num('0')))
-            fb.append(While(Bin('lt', Var(c), Num('1')), [ExprS(Assign(Var(c), Bin('+', Var(c), Num('1')))), inner]))
+            fb.append(While(Bin('lt', Var(c), Num('1')), [ExprS(Assign(Var(c), Bin('+', Var(c), Num('1'))))] + inner))
         else:
-            fb.append(inner)
+            fb += inner
         # some bodies on the way have handlers — for ANOTHER exception type: the exception passes them untouched, and so do the frames
         # of the calls that failed below
         other = [('旁错', [ExprS(Call('显示', [Str('旁')])), Ret(Num('0'))])] if rng.random() < 0.3 else []
@@ -117,7 +261,7 @@ def gen(g, rng):
         main.append(ExprS(Call('显示', [Call('先败', [])])))
     main += [filler(g, rng) for _ in range(rng.randint(0, 2))]
     if depth == 0:
-        main.append(fstmt)
+        main += flt.pre + [fstmt]
     else:
         c0 = ExprS(Call('显示', ml(rng, [call_of(0)])))
         c0.tag = 'call_0'
@@ -125,7 +269,10 @@ def gen(g, rng):
     main.append(ExprS(Call('显示', [Str('不达')])))
     if uses_other[0]:
         body.insert(0, Class('旁错', [('内容', Str(''))], []))
-    return Program([], body + main), depth, tail
+    # what the fault needs: definitions (anywhere among the others: they are hoisted), import lines
+    for d in flt.defs:
+        body.insert(rng.randint(0, len(body)), d) if not isinstance(d, Func) or not d.ctor else body.append(d)
+    return Program([], body + main, imports=flt.imports), depth, tail, flt.kind
 
 
 def run(ctx):
@@ -135,14 +282,18 @@ def run(ctx):
     ps = []
     meta = []
     for _ in range(n):
-        p, depth, tail = gen(g, rng)
+        p, depth, tail, kind = gen(g, rng)
         ps.append((p, {}))
-        meta.append((depth, tail))
+        meta.append((depth, tail, kind))
     srcs, go, model, spec = progs.run_stream(ctx, 'chain', ps,
-                                             nontrivial=lambda src, go: '层1' in src or '多行' in src or '第二行' in src)
+                                             nontrivial=lambda src, go: '层1' in src or '多行' in src or '第二行' in src or '导入' in src
+                                             or '错参' in src or '错型' in src or '法型' in src or '数甲' in src or '“文”' in src
+                                             or '败型' in src or '重名' in src or '重型' in src or '无此型' in src)
     # ground truth of the generator vs the rendered error
-    for (p, _), (depth, tail), src, g_out in zip(ps, meta, srcs, go):
-        tags = p.tags
+    for (p, _), (depth, tail, kind), src, g_out in zip(ps, meta, srcs, go):
+        tags = dict(p.tags)
+        if getattr(p, 'fault_import', None) is not None:
+            tags['fault'] = p.import_lines[p.fault_import]
         exp = ['main:%d' % (tags['call_%d' % i] + 1) for i in range(depth)] + ['main:%d' % (tags['fault'] + 1)]
         if tail:
             exp.append(tail)
@@ -150,6 +301,7 @@ def run(ctx):
         f = g_out.split(' ')
         got = f[3] if g_out.startswith('err') and len(f) > 3 else g_out
         ctx.count('chain-depth-%d' % depth)
+        ctx.count('fault-' + kind)
         if got != '>'.join(exp):
             ctx.violation('chain:ground-truth', case, g_out, 'expected chain ' + '>'.join(exp))
     # ---- syntax errors: a stray token planted on a generator-known line, after wide characters -------------
@@ -238,4 +390,10 @@ def run(ctx):
             ctx.violation('chain:crlf', s, a, b)
     ctx.streams.append({'stream': 'chain-crlf', 'cases': len(lines)})
     from props import c18_lineends   # the same kind of programs with MIXED line ends and blank runs, judged by the spec's physical lines
-    c18_lineends.run_mixed(ctx, g, [(p, ['call_%d' % i for i in range(d)] + ['fault'], t) for p, d, t in (gen(g, rng) for _ in range(ctx.n(600, 15000)))])
+    mixed = []
+    while len(mixed) < ctx.n(600, 15000):
+        p, d, t, _kind = gen(g, rng)
+        if p.imports:
+            continue      # the mixed renderer lays out the statement block only: programs with an import block stay in the chain stream
+        mixed.append((p, ['call_%d' % i for i in range(d)] + ['fault'], t))
+    c18_lineends.run_mixed(ctx, g, mixed)
